@@ -38,6 +38,7 @@ pub fn probes(_tier: &str) -> Vec<String> {
     "probe.unpack_for_other_did",
     "probe.unpack_for_same_did",
     "probe.first_publish_rebases_placeholder",
+    "probe.same_tag_other_network",
     "probe.foreign_method",
     "probe.method_controller_differs_from_id_did",
     "probe.also_known_as_mentions_self",
@@ -84,7 +85,29 @@ fn draw_scope() -> MethodScope {
 }
 
 /// Applies a tape-drawn batch of mutations to the party's IOTA document through the public API.
+/// A DID with the same tag as `did` on another network: a foreign DID that must never be treated as a self-reference.
+fn sibling_network_did(did: &str) -> Option<String> {
+  let parts: Vec<&str> = did.split(':').collect();
+  let (net, tag) = match parts.as_slice() {
+    ["did", "iota", tag] => ("iota", *tag),
+    ["did", "iota", net, tag] => (*net, *tag),
+    _ => return None,
+  };
+  let others: Vec<&str> = ["smr", "rms", "tst", "iota"].into_iter().filter(|n| *n != net).collect();
+  let o = others[ctx::choose(others.len())];
+  Some(if o == "iota" { format!("did:iota:{tag}") } else { format!("did:iota:{o}:{tag}") })
+}
+
 fn mutate(p: &mut Party, foreign_dids: &[String], round: usize) {
+  // besides the fixed foreign DIDs: the document's own tag on another network
+  let mut with_sibling: Vec<String> = foreign_dids.to_vec();
+  if let Some(sib) = sibling_network_did(&p.did) {
+    if ctx::choose(2) == 0 {
+      ctx::stat("probe.same_tag_other_network");
+      with_sibling.insert(0, sib);
+    }
+  }
+  let foreign_dids: &[String] = &with_sibling;
   let n = 1 + ctx::choose(6);
   for i in 0..n {
     let own = p.did.clone();
